@@ -2,6 +2,7 @@ package stream
 
 import (
 	"bytes"
+	"encoding/base64"
 	"encoding/json"
 	"fmt"
 	"math/rand"
@@ -10,6 +11,7 @@ import (
 	"strings"
 	"time"
 
+	"google.golang.org/protobuf/encoding/protowire"
 	"google.golang.org/protobuf/proto"
 	"google.golang.org/protobuf/reflect/protoreflect"
 
@@ -313,6 +315,9 @@ func shapeKey(c *Case, ex expect, outcome string) string {
 	if c.Asset != "" {
 		shape += "+asset-" + c.Asset
 	}
+	if c.Bad != "" {
+		shape += "+bad-" + c.Bad
+	}
 	if c.Duplex {
 		shape += "+full-duplex"
 	}
@@ -479,6 +484,7 @@ func RunC06(r *mon.Run) {
 	g.timed("laneBodyContentTypes", func() { g.laneBodyContentTypes() })
 	g.timed("laneEncodedDelivery", func() { g.laneEncodedDelivery() })
 	g.timed("laneAssets", func() { g.laneAssets("inproc") })
+	g.timed("laneProxied", func() { g.laneProxied() })
 	g.timed("lanePoisonedPool", func() { g.lanePoisonedPool() })
 	g.timed("laneReal", func() { g.laneReal() })
 	g.timed("laneConcurrent", func() { g.laneConcurrent() })
@@ -655,6 +661,89 @@ func (g *gen) laneInterleave() {
 				c := &Case{T: "http", Codec: "httpbody", Shape: "upbidi", Limit: L, Echo: true, EchoMode: md.echo, EchoEvery: md.every, Interfere: md.interfere, Trunc: -1, Msgs: [][]byte{prf(g.rng, n)}}
 				build(c, bodyOpt{})
 				g.sweepSchedules(c, 0, samples)
+			}
+		}
+	}
+}
+
+// appendBad appends one more, bad, message to the body of a built case.
+func appendBad(c *Case, class string) bool {
+	var bad []byte
+	switch {
+	case class == "malformed" && c.T == "http" && c.Codec == "json":
+		bad = []byte(`{"seq":"not a number"}`)
+	case class == "malformed" && c.T == "http":
+		bad = append(protowire.AppendVarint(nil, 3), 0xff, 0xff, 0xff)
+	case class == "malformed" && c.Codec == "gzip":
+		bad = wire.Frame([]byte("this is not gzip"), true)
+	case class == "malformed":
+		bad = wire.Frame([]byte{0xff, 0xff, 0xff}, false)
+	case class == "oversized" && c.T == "http" && c.Codec == "proto":
+		bad = append(protowire.AppendVarint(nil, 5<<20), 1, 2, 3)
+	case class == "oversized" && c.T != "http":
+		bad = wire.FrameRaw(0, 5<<20, []byte{1, 2, 3})
+	default:
+		return false
+	}
+	if c.T == "grpc-web-text" {
+		raw, err := base64.StdEncoding.DecodeString(string(c.Body))
+		if err != nil {
+			return false
+		}
+		c.Body = b64(append(raw, bad...))
+	} else {
+		c.Body = append(append([]byte(nil), c.Body...), bad...)
+	}
+	c.Bad = class
+	return true
+}
+
+// laneProxied: the truncation / broken-stream classes on a proxied target
+// (RegisterConn + real gRPC back-end) next to the local one; the handler
+// observed is the back-end's. A broken request stream must never reach it as
+// a clean end of stream.
+func (g *gen) laneProxied() {
+	r := g.r
+	tcs := []tcombo{{"http", "json", ""}, {"http", "proto", ""}, {"grpc", "proto", ""}, {"grpc-web", "proto", ""}}
+	if r.Thorough() {
+		tcs = append(tcs, tcombo{"grpc-web-text", "proto", ""}, tcombo{"grpc", "gzip", ""})
+	}
+	seqs := [][]string{{"T", "T"}, {"D5", "E", "T"}, {"T", "D200", "T"}}
+	if r.Thorough() {
+		seqs = append(seqs, []string{"D130"}, []string{"X", "T", "D40", "E"})
+	}
+	allUpTo, samples := r.Pick(0, 24), r.Pick(1, 4)
+	idx := 0
+	for _, tc := range tcs {
+		for si, kinds := range seqs {
+			idx++
+			shape := []string{"cs", "bidi"}[idx%2]
+			mk := func(proxied bool, ks []string) *Case {
+				c := &Case{T: tc.T, Codec: tc.Codec, Shape: shape, Echo: shape == "bidi", Proxied: proxied, Trunc: -1, Sched: "one-read"}
+				c.Msgs = g.msgs(ks, tc, 0)
+				if shape == "cs" {
+					c.Reply = [][]byte{g.reply(len(ks))}
+				}
+				build(c, bodyOpt{sep: []string{"", "\n"}[si%2]})
+				return c
+			}
+			// clean streams through the proxy
+			c := mk(true, kinds)
+			g.sweepSchedules(c, 0, 1)
+			// the body ends inside a message
+			c = mk(true, kinds)
+			g.sweepTruncationLight(c, g.truncOffsets(c, allUpTo, samples))
+			// a malformed / oversized later message, proxied and local
+			for _, class := range []string{"malformed", "oversized"} {
+				for k := 0; k <= len(kinds) && k <= 2; k++ {
+					for _, proxied := range []bool{true, false} {
+						c := mk(proxied, kinds[:k])
+						if !appendBad(c, class) {
+							continue
+						}
+						g.run(c)
+					}
+				}
 			}
 		}
 	}
